@@ -12,6 +12,8 @@ CONSTANTS
   MaxMarkers = 0
   MaxLen = 3
   FreshLen = 1
+  Family = "seq"
+  PosLen = 0
   SimMode = FALSE
 INVARIANT GenInv
 CHECK_DEADLOCK FALSE
